@@ -136,6 +136,10 @@ def run(m: Model, r: Report, tier: str) -> None:
             f"data control word test: {first_if_test(diag, 'HSFZStatus')}", loc=diag.loc)
     r.check(first_if_test(ack, "prev_data") == [m.mpat(ack, "data != prev_data[:5]")], "R6",
             f"{ack.qualname}#echo", f"ack echo test: {first_if_test(ack, 'prev_data')}; an ack echoes the first five request bytes", loc=ack.loc)
+    # the ack wait sets aside every frame whose control word is not Ack - data frames included
+    cw_tests = [n.test for n in walk_no_nested(ack.node) if isinstance(n, ast.If) and "HSFZStatus.Ack" in ast.unparse(n.test) and any(isinstance(x, ast.Continue) for x in n.body)]
+    skips_data = len(cw_tests) == 1 and isinstance(cw_tests[0], ast.Compare) and isinstance(cw_tests[0].ops[0], ast.NotEq)
+    tr.requeue_order(r, "R7", ack, rw, "_read_queue", skips_deliverable=skips_data)
     tr.requeue_before_exit(r, "R7", ack, "self._read_queue")
     tr.requeue_before_exit(r, "R7", diag, "self._read_queue")
 
